@@ -95,7 +95,7 @@ def layout_py(py, sym):
 def compare_covmat(ctx, py, sxc, res, mo):
     """res: impl result; mo: model result (None while the runner is not available)"""
     plain = full_d(res[0]); optim = full_d(res[1]); splain = full_d(res[2]); soptim = full_d(res[3])
-    o12 = res[4]; o11 = res[5]
+    o12 = res[6]; o11 = res[7]
     site = covmat_key(py)
     nvar = py['nvar']
     smax = max([abs(float(undy(x))) for s in py['model']['structs'] for x in s[4]] + [1e-30]) * len(py['model']['structs'])
@@ -137,6 +137,52 @@ def compare_covmat(ctx, py, sxc, res, mo):
                                   {'case': sx_str(sxc)}, found_input=False); break
             else: continue
             break
+    found |= compare_sparse(ctx, py, sxc, res, mo, plain, splain, smax)
+    return found
+
+def compare_sparse(ctx, py, sxc, res, mo, plain, splain, smax):
+    """evalCovMatrixSparse against the plain matrices: rectangular one when db2 differs from db1, symmetric one when db2 is db1 with
+    the same variables and sub-list (in the other same-Db regimes the sparse routine adds the measurement-error variances on a
+    non-square layout: no plain counterpart).  eps = 0: every cell; default eps: cells below eps * C_ij(0) dropped."""
+    if mo is None: return False
+    same = py['db2'] is None
+    if (same and (py['ivar0'] != py['jvar0'] or py['nbgh1'] != py['nbgh2'])) or py['ivar0'] > 0 or py['jvar0'] > 0:
+        ctx.dist('p1:sparse-regime-of-pair-14'); return False
+    ref = splain if same else plain
+    rows, cols = ([tuple(x) for x in mo[4][0]], [tuple(x) for x in mo[4][1]]) if same else ([tuple(x) for x in mo[0][0]], [tuple(x) for x in mo[0][1]])
+    site = covmat_key(py) + ('+onevar' if py['ivar0'] >= 0 or py['jvar0'] >= 0 else '')
+    nvar = py['nvar']
+    c0 = [[sum(float(undy(s[4][u * nvar + v])) for s in py['model']['structs']) for v in range(nvar)] for u in range(nvar)]
+    found = False
+    for name, S, eps in (('eps=0', res[4], 0.0), ('default-eps', res[5], 1e-3)):
+        ctx.count('p1:sparse:%s:%s' % (name, sx_str(sxc)[:1500]), ref[0] > 0)
+        if (ref[0], ref[1]) != (len(rows), len(cols)) and ref[0] > 0 and ref[1] > 0:
+            continue       # layout disagreement: reported by the layout comparison above
+        if ref[0] == 0 or ref[1] == 0:
+            continue       # no valid sample: the plain routines return an empty matrix; the sparse one returns whatever an empty triplet list gives
+        if not S:
+            ctx.violation('covmat-sparse:null:' + site, 'evalCovMatrixSparse(%s) returns no matrix where the plain routine returns %dx%d' % (name, ref[0], ref[1]), {'case': sx_str(sxc)}); found = True; continue
+        nr, nc, M = full_d(S)
+        bad = None
+        for i in range(ref[0]):
+            for j in range(ref[1]):
+                e = float(ref[2][i][j]); (u, _), (v, _) = rows[i], cols[j]
+                diag_verr = same and i == j and py['db1']['verr']
+                thr = eps * c0[u][v]
+                base = e - (float(py['db1']['verr'][u][rows[i][1]]) if diag_verr else 0.)
+                near = eps > 0 and abs(abs(base) - thr) <= 1e-9 * (1 + abs(thr))      # on the threshold: either answer
+                keep = abs(base) >= thr
+                a = float(M[i][j]) if i < nr and j < nc and M[i][j] is not None else 0.
+                if near: continue
+                # a dropped diagonal cell still receives the measurement-error variance through updValue on an absent entry: accept both
+                exp = e if keep else 0.
+                if abs(a - exp) > 1e-10 * (smax + abs(exp)):
+                    if not keep and diag_verr and abs(a - (e - base)) <= 1e-10 * (smax + abs(e)): continue
+                    bad = (i, j, a, exp, keep); break
+            if bad: break
+        if bad:
+            ctx.violation('covmat-sparse:%s:%s' % (name, site), 'evalCovMatrixSparse(%s)[%d][%d] = %r, plain matrix gives %r (cell %s the threshold; row (var,sample) %s, column %s)' % (
+                name, bad[0], bad[1], bad[2], bad[3], 'passes' if bad[4] else 'is below', rows[bad[0]], cols[bad[1]]), {'case': sx_str(sxc), 'row': bad[0], 'col': bad[1]}); found = True
     return found
 
 def db_of_sx(d):
@@ -158,8 +204,25 @@ def py_of_sx(c):
     if m == 1: return covmat_py_of_sx(c)
     if m == 4:
         if c[1] == 0: return {'mode': 4, 'sub': 0, 'ndim': c[2], 'db1': db_of_sx(c[3]), 'db2': db_of_sx(c[4]), 'dist_type': c[5], 'dmax': [undy(x) for x in c[6]]}
-        return {'mode': 4, 'sub': 1, 'ndim': c[2], 'dbin': db_of_sx(c[3]), 'dbout': db_of_sx(c[4]), 'nmini': c[5][0], 'nmaxi': c[5][1], 'radius': undy(c[5][2]), 'leaf': c[5][3]}
+        q = c[5]
+        return {'mode': 4, 'sub': 1, 'ndim': c[2], 'dbin': db_of_sx(c[3]), 'dbout': db_of_sx(c[4]), 'nmini': q[0], 'nmaxi': q[1], 'radius': undy(q[2]), 'leaf': q[3],
+                'nsect': q[4] if len(q) > 4 else 1, 'nsmax': q[5] if len(q) > 5 else -1234567, 'xvalid': bool(q[6]) if len(q) > 6 else False,
+                'coeffs': [undy(x) for x in c[6]] if len(c) > 6 else [], 'angles': [undy(x) for x in c[7]] if len(c) > 7 else []}
+    if m == 9:
+        py = {'mode': 9, 'sub': c[1], 'ndim': c[2], 'nvar': c[3], 'dbin': db_of_sx(c[4]), 'calcul': [0], 'neigh': [0]}
+        if c[1] == 0: py['model'] = model_of_sx(c[5])
+        else:
+            py['dbout'] = db_of_sx(c[5]); py['model'] = model_of_sx(c[6])
+            if c[1] == 1: py.update({'colvars': c[7], 'sec': [[undy(x) for x in col] for col in c[8]]})
+            else: py.update({'pm': [undy(x) for x in c[7]], 'pd': [undy(x) for x in c[8]]})
+        return py
+    if m == 14: return {'mode': 14, 'ndim': c[1], 'nvar': c[2], 'db1': db_of_sx(c[3]), 'db2': None, 'model': model_of_sx(c[4]), 'ivar0': c[5], 'jvar0': c[6], 'nbgh1': c[7], 'nbgh2': c[8]}
+    if m == 10: return {'mode': 10, 'ndim': c[1], 'nvar': c[2], 'db1': db_of_sx(c[3]), 'model': model_of_sx(c[4]), 'ivar0': c[5], 'nbgh1': c[6]}
+    if m == 13: return {'mode': 13, 'ndim': c[1], 'nvar': c[2], 'db1': db_of_sx(c[3]), 'ivar0': c[4], 'nbgh1': c[5]}
     py = {'mode': m, 'ndim': c[1], 'nvar': c[2], 'dbin': db_of_sx(c[3]), 'calcul': [0], 'neigh': [0]}
+    if m == 8: py.update({'dbout': db_of_sx(c[4]), 'model': model_of_sx(c[5]), 'modelB': model_of_sx(c[6]), 'ops': c[7]})
+    if m == 11: py.update({'grid': (c[4][0], [undy(x) for x in c[4][1]], [undy(x) for x in c[4][2]]), 'model': model_of_sx(c[5]), 'neigh': c[6], 'ndiscs': c[7], 'blex': [[undy(x) for x in b] for b in c[8]]})
+    if m == 12: py.update({'dbout': db_of_sx(c[4]), 'model': model_of_sx(c[5]), 'neigh': c[6]})
     if m == 2: py.update({'dbout': db_of_sx(c[4]), 'model': model_of_sx(c[5]), 'mv': (c[6][0], c[6][1], undy(c[6][2]))})
     elif m == 3: py.update({'model': model_of_sx(c[4]), 'dbout': None}); py['nafext'] = any(x is None for col in py['dbin']['fext'] for x in col)
     elif m == 5: py.update({'grid': (c[4][0], [undy(x) for x in c[4][1]], [undy(x) for x in c[4][2]]), 'model': model_of_sx(c[5]), 'neigh': c[6]})
@@ -182,7 +245,7 @@ def compare_projection(ctx, py, sxc, res, mo):
     if mo[2] != 1:
         ctx.violation('model-drift:projected-distance', 'the model finds a cell where the squared distance of the projected points differs from the anisotropic one', {'case': sx_str(sxc)}, found_input=False)
     db1 = py['db1']
-    for s, (PI, PM) in enumerate(zip(res[7], mo[3])):
+    for s, (PI, PM) in enumerate(zip(res[9], mo[3])):
         if len(PI) != len(PM):
             ctx.violation('model-drift:pre-projection', 'structure %d: %d stored points, model %d' % (s, len(PI), len(PM)), {'case': sx_str(sxc)}, found_input=False); return
         for i, (a, b) in enumerate(zip(PI, PM)):
@@ -453,20 +516,48 @@ def compare_migrate(ctx, py, sxc, res):
     return found
 
 def gen_ballneigh(ctx, k):
+    """any configuration: the committed shortcut is guarded (C06_ball_shortcut / C06_ball_fallback), so setBallSearch(true) must
+    select what setBallSearch(false) selects whatever the masks, undefined values, cross-validation, sectors, anisotropy"""
     rng = ctx.rng
-    ndim = 2    # BiTargetCheckDistance without coefficients measures exactly two coordinates (1-D / 3-D: C06's findings)
+    ndim = rng.choice([1, 2, 2, 2, 3])
     n = rng.choice([rng.randint(3, 12), rng.randint(25, 60) if ndim > 1 else rng.randint(13, 28)])
-    dbin = gen_db(rng, ndim, 1, n, 0)
+    plain = rng.random() < .5          # the premise of the shortcut holds: nothing masked / undefined / cross-validated
+    dbin = gen_db(rng, ndim, 1, n, 0, p_na=0. if plain else rng.choice([0., .15]), with_sel=(not plain) and rng.random() < .5)
     m = rng.randint(3, 6)
     dbout = gen_db(rng, ndim, 0, m, 0); dbout['z'] = []
     for d in range(ndim): dbout['coords'][d] = [dbin['coords'][d][rng.randrange(n)] + F(rng.randint(-6, 6), 2) + F(1, 16) for _ in range(m)]
-    nmaxi = rng.randint(1, n); nmini = rng.randint(1, min(nmaxi, 3))
+    xvalid = (not plain) and rng.random() < .3
+    if xvalid:       # some targets on data points
+        for j in range(m):
+            if rng.random() < .6:
+                i = rng.randrange(n)
+                for d in range(ndim): dbout['coords'][d][j] = dbin['coords'][d][i]
+    nmaxi = rng.randint(1, n) if plain or rng.random() < .7 else rng.choice([n + 2, 0])
+    nmini = rng.randint(1, min(max(nmaxi, 1), 3)) if plain or rng.random() < .8 else nmaxi + 1
     radius = None if rng.random() < .5 else F(rng.randint(4, 40), 2)
     leaf = rng.choice([1, 2, 5, 10, 30])
-    py = {'mode': 4, 'sub': 1, 'ndim': ndim, 'dbin': dbin, 'dbout': dbout, 'nmini': nmini, 'nmaxi': nmaxi, 'radius': radius, 'leaf': leaf}
-    sxc = [4, 1, ndim, db_sx(dbin), db_sx(dbout), [nmini, nmaxi, dy(radius), leaf]]
-    ctx.dist('p4:neigh:' + ('radius' if radius is not None else 'noradius'))
+    nsect = 1 if plain or ndim == 1 or rng.random() < .7 else rng.choice([2, 4, 8]); nsmax = rng.choice([-1234567, 1, 2])
+    # outside 2-D the coefficients are always given (BiTargetCheckDistance without coefficients measures exactly two coordinates)
+    coeffs, angles = [], []
+    if ndim != 2 or rng.random() < .4:
+        if plain or rng.random() < .5: coeffs = [rng.choice([F(1), F(2), F(1, 2)])] * ndim
+        else: coeffs = [rng.choice([F(1), F(2), F(1, 2), F(3)]) for _ in range(ndim)]
+        if not plain and ndim > 1 and rng.random() < .3: angles = [F(rng.choice([30, 45, 90]))] + [F(0)] * (ndim - 1)
+    py = {'mode': 4, 'sub': 1, 'ndim': ndim, 'dbin': dbin, 'dbout': dbout, 'nmini': nmini, 'nmaxi': nmaxi, 'radius': radius, 'leaf': leaf,
+          'nsect': nsect, 'nsmax': nsmax, 'xvalid': xvalid, 'coeffs': coeffs, 'angles': angles, 'plain': plain}
+    sxc = [4, 1, ndim, db_sx(dbin), db_sx(dbout), [nmini, nmaxi, dy(radius), leaf, nsect, nsmax, 1 if xvalid else 0], [dy(x) for x in coeffs], [dy(x) for x in angles]]
+    ctx.dist('p4:neigh:' + ('premise' if plain else 'general'))
     return py, sxc
+
+def ballneigh_key(py):
+    k = []
+    if py.get('xvalid'): k.append('xvalid')
+    if py['dbin']['sel']: k.append('mask')
+    if any(x is None for x in py['dbin']['z'][0]): k.append('undefined')
+    if py.get('nsect', 1) > 1: k.append('sectors')
+    if py.get('angles'): k.append('rotation')
+    if py.get('coeffs') and len(set(py['coeffs'])) > 1: k.append('anisotropy')
+    return '+'.join(k) or 'premise-holds'
 
 def compare_ballneigh(ctx, py, sxc, res):
     A, B = res[0], res[1]
@@ -476,13 +567,14 @@ def compare_ballneigh(ctx, py, sxc, res):
     for j in range(dbout['n']):
         d2 = sorted(sum((dbin['coords'][d][i] - dbout['coords'][d][j]) ** 2 for d in range(ndim)) for i in range(dbin['n']))
         km = py['nmaxi']
-        if km < len(d2) and d2[km - 1] == d2[km]: ctx.cov['tie_excluded'] += 1; continue
-        if py['radius'] is not None and any(x == py['radius'] ** 2 for x in d2): ctx.cov['tie_excluded'] += 1; continue
+        # ties at the nmaxi cut: the tree and the sort may legitimately keep different samples (excluded by the theorems)
+        if 0 < km < len(d2) and d2[km - 1] == d2[km]: ctx.cov['tie_excluded'] += 1; continue
         ctx.count('p4n:%s:%d' % (sx_str(sxc)[:1000], j), True)
         if A[j] != B[j]:
-            ctx.violation('ballsearch:premise-holds:%s' % ('radius' if py['radius'] is not None else 'noradius'),
-                          'target %d: exhaustive _moving selects %s, ball search %s (nmini %d nmaxi %d radius %s leaf %d; no mask, no undefined value, one sector)' % (
-                              j, A[j], B[j], py['nmini'], py['nmaxi'], py['radius'], py['leaf']), {'case': sx_str(sxc), 'target': j}); found = True
+            ctx.violation('ballsearch:' + ballneigh_key(py),
+                          'target %d: exhaustive _moving selects %s, ball search %s (nmini %d nmaxi %d radius %s leaf %d nsect %d xvalid %s coeffs %s angles %s)' % (
+                              j, A[j], B[j], py['nmini'], py['nmaxi'], py['radius'], py['leaf'], py.get('nsect', 1), py.get('xvalid'),
+                              [str(x) for x in py.get('coeffs', [])], [str(x) for x in py.get('angles', [])]), {'case': sx_str(sxc), 'target': j}); found = True
     return found
 
 # ============================================================================================== pair 5: block with one point vs point
@@ -658,19 +750,380 @@ def compare_calcul(ctx, py, sxc, res, mcases):
     mcases += model_cases_for(py, drifts, S)
     return found
 
+# ============================================================================================== pair 8: KrigingCalcul, sequences on one object
+SETTERS = {0: 'setData', 1: 'setLHS', 2: 'setRHS', 3: 'setVar', 4: 'setColCokUnique', 5: 'setBayes', 6: 'setXvalidUnique', -1: 'construction'}
+GETTERS = {0: 'getEstimation', 1: 'getStdv', 2: 'getVarianceZstar', 3: 'getPostMean', 4: 'getLambda', 5: 'getLambda0', 6: 'getMu', 7: 'getPostCov'}
+
+def gen_kcseq(ctx, k):
+    rng = ctx.rng
+    py = gen_krig_base(ctx, nvars=(2, 2, 3), orders=(-1, 0, 0, 1), nfexs=(0,), hetero_p=.4, sel_p=.2, m=3, nmax=8)
+    if py['model']['order'] < 0 and rng.random() < .3: py['model']['means'] = [F(0)] * py['nvar']
+    modelB = gen_regular_model(rng, py['ndim'], py['nvar'], py['model']['order'], 0)
+    modelB['means'] = py['model']['means']
+    uk = py['model']['order'] >= 0
+    def setter():
+        r = rng.random()
+        if r < .18: return [0, rng.randrange(2), 0]
+        if r < .36: return [1, rng.randrange(2), 0]
+        if r < .60: return [2, rng.randrange(3), rng.randrange(2)]
+        if r < .72: return [3, rng.randrange(2), 0]
+        if r < .90: return [4, 1 if rng.random() < .7 else 0, rng.randrange(2)]
+        if uk and r < .96: return [5, 1 if rng.random() < .7 else 0, rng.randrange(2)]
+        return [6, rng.randrange(3), 0]
+    ops = [[0, rng.randrange(2), 0], [1, rng.randrange(2), 0], [2, rng.randrange(3), rng.randrange(2)], [3, rng.randrange(2), 0]]
+    rng.shuffle(ops)
+    def getters():
+        return [[10 + rng.choice([0, 0, 1, 1, 2, 2, 3, 4, 5, 6, 7]), 0, 0] for _ in range(rng.choice([1, 2, 3]))]
+    ops += getters()
+    for _ in range(rng.randint(6, 14)):
+        ops.append(setter()); ops += getters()
+    py.update({'mode': 8, 'modelB': modelB, 'ops': ops})
+    sxc = [8, py['ndim'], py['nvar'], db_sx(py['dbin']), db_sx(py['dbout']), model_sx(py['model']), model_sx(modelB), ops]
+    ctx.dist('p8:' + krig_site(py))
+    return py, sxc
+
+def compare_kcseq(ctx, py, sxc, res):
+    nbfl, nxv, recs = res
+    found = False
+    for k, last, g, errP, errF, vp, vf in recs:
+        ctx.count('p8:%s:%d' % (sx_str(sxc)[:1500], k), True)
+        a = [undy(x) for x in vp]; b = [undy(x) for x in vf]
+        bad = None
+        if len(a) != len(b): bad = '%d values against %d' % (len(a), len(b))
+        else:
+            for x, y in zip(a, b):
+                if (x is None) != (y is None) or (x is not None and abs(float(x) - float(y)) > 1e-9 * (1 + abs(float(y)))):
+                    bad = '%r against %r' % (fl(x), fl(y)); break
+        if bad:
+            hist = ' '.join('%s(%d,%d)' % (SETTERS[o[0]], o[1], o[2]) if o[0] < 10 else GETTERS[o[0] - 10] for o in py['ops'][:k + 1])
+            ctx.violation('KrigingCalcul:%s-after-%s' % (GETTERS[g], SETTERS[last]),
+                          'operation %d: %s on the object that went through the sequence gives %s the same setters replayed on a fresh object (history: %s)' % (k, GETTERS[g], bad, hist),
+                          {'case': sx_str(sxc), 'operation': k}); found = True
+    return found
+
+def qsolve(A, B):
+    """exact solution of A.W = B (lists of rows of Fractions); None when singular"""
+    n = len(A); M = [list(A[i]) + list(B[i]) for i in range(n)]
+    for c in range(n):
+        p = next((r for r in range(c, n) if M[r][c] != 0), None)
+        if p is None: return None
+        M[c], M[p] = M[p], M[c]
+        pv = M[c][c]; M[c] = [x / pv for x in M[c]]
+        for r in range(n):
+            if r != c and M[r][c] != 0:
+                f = M[r][c]; M[r] = [x - f * y for x, y in zip(M[r], M[c])]
+    return [row[n:] for row in M]
+def qmul(A, B): return [[sum(A[i][k] * B[k][j] for k in range(len(B))) for j in range(len(B[0]))] for i in range(len(A))]
+def qT(A): return [list(r) for r in zip(*A)]
+
+def bayes_reference(Sigma, X, Sigma0, X0, Sigma00, Z, pm, pd):
+    """Bayesian kriging from its definition, exactly: posterior of the drift coefficients, estimate and error variance per variable"""
+    n = len(Sigma); p = len(X[0]); nv = len(Sigma0[0])
+    SiX = qsolve(Sigma, X); SiZ = qsolve(Sigma, [[z] for z in Z]); SiS0 = qsolve(Sigma, Sigma0)
+    if SiX is None: return None
+    Sinv = [[(1 / pd[i] if i == j else Fraction(0)) for j in range(p)] for i in range(p)]
+    Mx = qmul(qT(X), SiX)
+    Ac = [[Mx[i][j] + Sinv[i][j] for j in range(p)] for i in range(p)]
+    rhs = [[sum(X[k][i] * SiZ[k][0] for k in range(n)) + Sinv[i][i] * pm[i]] for i in range(p)]
+    beta = qsolve(Ac, rhs)
+    if beta is None: return None
+    beta = [b[0] for b in beta]
+    est, var = [], []
+    for r in range(nv):
+        lam = [SiS0[k][r] for k in range(n)]
+        y0 = [X0[r][l] - sum(lam[k] * X[k][l] for k in range(n)) for l in range(p)]
+        est.append(sum(lam[k] * Z[k] for k in range(n)) + sum(y0[l] * beta[l] for l in range(p)))
+        Acy = qsolve(Ac, [[y] for y in y0])
+        var.append(Sigma00[r][r] - sum(lam[k] * Sigma0[k][r] for k in range(n)) + sum(y0[l] * Acy[l][0] for l in range(p)))
+    return est, var
+
+# ============================================================================================== pair 9: KrigingCalcul options vs KrigingSystem
+def gen_kcopt(ctx, k):
+    rng = ctx.rng
+    sub = rng.choice([0, 0, 1, 2])
+    if sub == 0:
+        py = gen_krig_base(ctx, nvars=(1, 1, 2), orders=(-1, 0, 0, 1), nfexs=(0,), hetero_p=.3, sel_p=.2, m=1, nmax=8)
+        sxc = [9, 0, py['ndim'], py['nvar'], db_sx(py['dbin']), model_sx(py['model'])]
+    elif sub == 1:
+        py = gen_krig_base(ctx, nvars=(2, 2, 3), orders=(-1, 0, 0, 1), nfexs=(0,), hetero_p=.5, sel_p=.15, m=3)
+        nvar = py['nvar']; m = py['dbout']['n']
+        colvars = [1] if nvar == 2 or rng.random() < .5 else [1, 2]
+        sec = [[F(rng.randint(-200, 200), 8) for _ in range(m)] for _ in colvars]
+        py.update({'colvars': colvars, 'sec': sec})
+        sxc = [9, 1, py['ndim'], nvar, db_sx(py['dbin']), db_sx(py['dbout']), model_sx(py['model']), colvars, [[dy(x) for x in col] for col in sec]]
+    else:
+        py = gen_krig_base(ctx, nvars=(1, 1, 2), orders=(0, 0, 1), nfexs=(0,), hetero_p=.3, sel_p=.15, m=3, nmax=7)
+        nfeq = py['nvar'] * monomials(py['ndim'], py['model']['order'])
+        pm = [F(rng.randint(-8, 8), 2) for _ in range(nfeq)]; pd = [F(rng.randint(1, 16), 4) for _ in range(nfeq)]
+        py.update({'pm': pm, 'pd': pd})
+        sxc = [9, 2, py['ndim'], py['nvar'], db_sx(py['dbin']), db_sx(py['dbout']), model_sx(py['model']), [dy(x) for x in pm], [dy(x) for x in pd]]
+    py.update({'mode': 9, 'sub': sub})
+    ctx.dist('p9:%s:%s' % (['xvalid', 'colcok', 'bayes'][sub], krig_site(py)))
+    return py, sxc
+
+def compare_kcopt(ctx, py, sxc, res):
+    sub = py['sub']; nvar = py['nvar']; found = False; zs = zscale_of(py)
+    site = krig_site(py)
+    if sub == 0:
+        for rec in res:
+            if not rec: continue
+            s, err, est, std, plain = rec
+            okB, tb = parse_k(plain, c01dump=True)
+            if not okB or not tb or not tb[0]['nbgh'] or tb[0]['est'][0] is None: continue
+            tb = tb[0]
+            cond = cond_of(tb)
+            ctx.count('p9x:%s:%d' % (sx_str(sxc)[:1200], s), True)
+            if cond > 1e6: ctx.cov['tie_excluded'] += 1; continue
+            vs = max([abs(float(undy(tb['c00'][v][v]))) for v in range(nvar)] + [1e-30])
+            kA = {'est': vec_d(est), 'std': vec_d(std)}
+            if err or len(kA['est']) != nvar or len(kA['std']) != nvar:
+                ctx.violation('KrigingCalcul:xvalid-refused:' + site, 'setXvalidUnique refused (err %d) a sample that plain leave-one-out kriging handles' % err, {'case': sx_str(sxc), 'sample': s}); found = True; continue
+            d = diff_outputs(kA, tb, nvar, 10 * TOL * max(1., cond), zs, vs, what=('est', 'std'))
+            if d: ctx.violation('KrigingCalcul:xvalid-vs-leave-one-out:' + site, 'sample %d: setXvalidUnique vs kriging without the sample: %s' % (s, d), {'case': sx_str(sxc), 'sample': s}); found = True
+        return found
+    (okS, S), K = res
+    if not okS: return False
+    name = 'colcok' if sub == 1 else 'bayes'
+    if sub == 1: zs = max(zs, max([abs(float(x)) for col in py['sec'] for x in col if x is not None] + [1.]))
+    if sub == 2: zs = max(zs, max([abs(float(x)) for x in py['pm']] + [1.]) * 50)
+    for it, (srec, krec) in enumerate(zip(S, K)):
+        if not krec: continue
+        est, std, varz, lhs = srec
+        s = {'est': vec_d(est), 'std': vec_d(std), 'varz': vec_d(varz)}
+        if s['est'][0] is None: continue
+        cond = c01.cond_number(mat_d(lhs)) if lhs else 1.0
+        ctx.count('p9:%s:%s:%d' % (name, sx_str(sxc)[:1200], it), True)
+        if cond > 1e6: ctx.cov['tie_excluded'] += 1; continue
+        err, kest, kstd, kvarz = krec[:4]
+        kA = {'est': vec_d(kest), 'std': vec_d(kstd), 'varz': vec_d(kvarz)}
+        if err or len(kA['est']) != nvar:
+            ctx.violation('KrigingCalcul:%s-refused:%s' % (name, site), 'KrigingCalcul refuses (err %d) what KrigingSystem solves' % err, {'case': sx_str(sxc), 'target': it}); found = True; continue
+        vs = max([abs(float(x)) for x in s['std'] if x is not None] + [1e-3]) ** 2 + 1
+        what = ('est', 'std') if sub == 2 else ('est', 'std', 'varz')
+        if len(kA['std']) != nvar: kA['std'] = [None] * nvar
+        if len(kA['varz']) != nvar: kA['varz'] = [None] * nvar
+        tol = 10 * TOL * max(1., cond)
+        d = diff_outputs(kA, s, nvar, tol, zs, vs, what=what)
+        if not d: continue
+        found = True
+        if sub == 1:
+            # the collocated option of KrigingSystem equals cokriging of the augmented data set (pair 6): it is the reference
+            sk = py['model']['order'] < 0
+            if d.startswith('est'): key = 'KrigingCalcul:colcok-estimate:' + site
+            else: key = 'KrigingCalcul:colcok-variance:' + ('SK' if sk else 'UK')
+            ctx.violation(key, 'target %d: %s (KrigingCalcul.setColCokUnique vs collocated cokriging of KrigingSystem = cokriging of the augmented data)' % (it, d), {'case': sx_str(sxc), 'target': it})
+            continue
+        # Bayes: decide with the definition, evaluated exactly on the matrices given to KrigingCalcul
+        ref = bayes_reference(*[mat_d(x[2]) for x in krec[4:9]], vec_d(krec[9]), py['pm'], py['pd'])
+        if ref is None: continue
+        R = {'est': ref[0], 'std': [Fraction(max(float(v), 0.)).limit_denominator(10**12) ** 1 for v in ref[1]]}
+        R['std'] = [Fraction(math.sqrt(max(float(v), 0.))) for v in ref[1]]
+        dk = diff_outputs(kA, R, nvar, tol, zs, vs, what=('est', 'std')); ds = diff_outputs(s, R, nvar, tol, zs, vs, what=('est', 'std'))
+        # classes of the known kribayes defects (fixes/C04_8.patch, not applied): at least two drift equations (order >= 1 or several
+        # variables); one drift equation with a selection.  Anything else ('basic') is a fresh violation.
+        nfeq = len(py['pm'])
+        cause = 'several-drift-equations' if nfeq > 1 else ('selection' if py['dbin'].get('sel') and not all(py['dbin']['sel']) else 'basic')
+        if ds and not dk:
+            ctx.violation('kribayes:' + cause, 'target %d: kribayes (KrigingSystem) deviates from Bayesian kriging evaluated exactly (%s) while KrigingCalcul.setBayes agrees with it' % (it, ds),
+                          {'case': sx_str(sxc), 'target': it})
+        elif dk and not ds:
+            ctx.violation('KrigingCalcul:bayes:' + site, 'target %d: KrigingCalcul.setBayes deviates from Bayesian kriging evaluated exactly (%s) while kribayes agrees with it' % (it, dk), {'case': sx_str(sxc), 'target': it})
+        else:
+            ctx.violation('bayes:both-paths:' + site, 'target %d: both deviate from the definition: KrigingCalcul %s; kribayes %s' % (it, dk, ds), {'case': sx_str(sxc), 'target': it})
+    return found
+
+# ============================================================================================== pair 10: drift matrix vs drift values
+def gen_driftmat(ctx, k):
+    rng = ctx.rng
+    ndim = rng.choice([1, 2, 2, 3]); nvar = rng.choice([1, 2, 2, 3]); order = rng.choice([0, 1, 1, 2]); nfex = rng.choice([0, 0, 1, 2])
+    n = rng.randint(2, 9)
+    db = gen_db(rng, ndim, nvar, n, nfex, p_na=rng.choice([0., .25]), with_verr=rng.random() < .3, with_sel=rng.random() < .4)
+    if db['verr']: db['verr'] = [[rng.choice([0, F(1, 4), 1, None, F(-1, 2)]) for _ in range(n)] for _ in range(nvar)]
+    model = gen_model(rng, ndim, nvar, order=order, nfex=nfex)
+    ivar0 = rng.choice([-1, -1] + list(range(nvar)))
+    nbgh = [] if rng.random() < .5 else ([i for i in range(n) if rng.random() < .7] or [0])
+    if nbgh and rng.random() < .4: rng.shuffle(nbgh)
+    py = {'mode': 10, 'ndim': ndim, 'nvar': nvar, 'db1': db, 'model': model, 'ivar0': ivar0, 'nbgh1': nbgh}
+    sxc = [10, ndim, nvar, db_sx(db), model_sx(model), ivar0, nbgh]
+    ctx.dist('p10:order%d+fex%d' % (order, nfex))
+    return py, sxc
+
+def compare_driftmat(ctx, py, sxc, res, mo):
+    MLHS, MRHS, nfeq, pw = res
+    found = False
+    for name, M, lay in (('LHS', MLHS, mo[1][0]), ('RHS', MRHS, mo[0][0])):
+        nr, nc, rows = full_d(M)
+        ctx.count('p10:%s:%s' % (name, sx_str(sxc)[:1200]), nr > 0)
+        lay = [tuple(x) for x in lay]
+        if nr != len(lay) and not (nr == 0 and len(lay) == 0):
+            ctx.violation('model-drift:driftmat-layout:' + name, 'evalDriftMatrix(%s) has %d rows, the model of the active-rank lists %d' % (name, nr, len(lay)), {'case': sx_str(sxc)}, found_input=False); continue
+        for i in range(nr):
+            v, ie = lay[i]
+            for ib in range(nc):
+                a = rows[i][ib]; b = undy(pw[ie][v][ib])
+                if a != b:
+                    ctx.violation('driftmat:value:' + name, 'evalDriftMatrix(%s)[%d][%d] = %r but evalDriftValue(sample %d, variable %d, equation %d) = %r' % (name, i, ib, fl(a), ie, v, ib, fl(b)),
+                                  {'case': sx_str(sxc)}); found = True; break
+            else: continue
+            break
+    return found
+
+# ============================================================================================== pair 14: sparse matrix, same Db, non-symmetric layout
+def gen_sparse_ns(ctx, k):
+    rng = ctx.rng
+    ndim = rng.choice([1, 2, 3]); nvar = rng.choice([2, 2, 3]); n = rng.randint(3, 8)
+    db = gen_db(rng, ndim, nvar, n, 0, p_na=rng.choice([0., .2]), with_sel=rng.random() < .3)
+    if rng.random() < .5: db['verr'] = [[rng.choice([0, F(1, 4), F(1, 2), 1, 2]) for _ in range(n)] for _ in range(nvar)]
+    model = gen_model(rng, ndim, nvar, order=-1); model['means'] = []
+    r = rng.random()
+    if r < .3:       # one variable of rank >= 1 for rows and columns: the symmetric layout, no measurement error
+        ivar0 = jvar0 = rng.randrange(1, nvar); nbgh1 = nbgh2 = []; db['verr'] = []
+    elif r < .65:
+        ivar0, jvar0 = rng.sample(range(nvar), 2); nbgh1 = nbgh2 = []
+    else:
+        ivar0 = jvar0 = rng.choice([-1, 0]); nbgh1 = []; nbgh2 = sorted(rng.sample(range(n), rng.randint(1, n - 1)))
+    py = {'mode': 14, 'ndim': ndim, 'nvar': nvar, 'db1': db, 'db2': None, 'model': model, 'ivar0': ivar0, 'jvar0': jvar0, 'nbgh1': nbgh1, 'nbgh2': nbgh2}
+    sxc = [14, ndim, nvar, db_sx(db), model_sx(model), ivar0, jvar0, nbgh1, nbgh2]
+    ctx.dist('p14:' + ('verr' if db['verr'] else 'noverr'))
+    return py, sxc
+
+def compare_sparse_ns(ctx, py, sxc, res):
+    A = full_d(res[0])
+    ctx.count('p14:' + sx_str(sxc)[:1500], A[0] > 0)
+    if A[0] == 0 or A[1] == 0: return False
+    if not res[1]:
+        ctx.violation('covmat-sparse:null:nonsquare', 'evalCovMatrixSparse returns no matrix', {'case': sx_str(sxc)}); return True
+    nr, nc, M = full_d(res[1])
+    smax = max([abs(float(undy(x))) for st in py['model']['structs'] for x in st[4]] + [1e-30]) * len(py['model']['structs'])
+    for i in range(A[0]):
+        for j in range(A[1]):
+            a = float(M[i][j]) if i < nr and j < nc and M[i][j] is not None else 0.
+            e = float(A[2][i][j])
+            if abs(a - e) > 1e-10 * (smax + abs(e)):
+                ctx.violation('covmat-sparse:verr-on-nonsquare-layout', 'evalCovMatrixSparse(db, db) with different variables / sub-lists for rows and columns: [%d][%d] = %r, the rectangular matrix has %r '
+                              '(the measurement-error variances are added on (i,i) of a matrix that is not the symmetric one)' % (i, j, a, e), {'case': sx_str(sxc), 'row': i, 'col': j}); return True
+    return False
+
+# ============================================================================================== pair 11: per-cell block discretisation
+def gen_percell(ctx, k):
+    rng = ctx.rng
+    py = gen_krig_base(ctx, nfexs=(0,), orders=(-1, 0, 0, 1), dims=(1, 2, 2, 3))
+    ndim = py['ndim']
+    nx = [rng.randint(1, 3) for _ in range(ndim)]
+    dx = [rng.choice([F(1), F(2), F(1, 2), F(5, 4)]) for _ in range(ndim)]
+    x0 = [F(rng.randint(-12, 12), 2) + F(1, 16) for _ in range(ndim)]
+    ndiscs = [rng.choice([1, 2, 3]) for _ in range(ndim)]
+    neigh = [0] if rng.random() < .6 else [1, 1, rng.choice([4, 6, py['dbin']['n']]), dy(None)]
+    ncell = 1
+    for v in nx: ncell *= v
+    blex = [[rng.choice([F(1), F(2), F(1, 2), F(5, 4), F(3)]) for _ in range(ndim)] for _ in range(ncell)]     # extension of every cell
+    py.update({'mode': 11, 'grid': (nx, dx, x0), 'neigh': neigh, 'ndiscs': ndiscs, 'blex': blex})
+    sxc = [11, ndim, py['nvar'], db_sx(py['dbin']), [nx, [dy(x) for x in dx], [dy(x) for x in x0]], model_sx(py['model']), neigh, ndiscs, [[dy(x) for x in b] for b in blex]]
+    ctx.dist('p11:' + krig_site(py))
+    return py, sxc
+
+def compare_percell(ctx, py, sxc, res):
+    ones, (okC, Cx) = res
+    site = krig_site(py)
+    okF = all(o[0] for o in ones); Fx = [o[1][0] for o in ones if o[0]]
+    if not okF or not okC:
+        if okF != okC: ctx.violation('percell-vs-fixed:setup:' + site, 'isReady: fixed discretisation %s, per-cell %s' % (okF, okC), {'case': sx_str(sxc)}); return True
+        return False
+    found = False; zs = zscale_of(py); nvar = py['nvar']
+    for it, (f, c) in enumerate(zip(Fx, Cx)):
+        ctx.count('p11:%s:%d' % (sx_str(sxc)[:1200], it), bool(f[0]))
+        if f[0] != c[0]:
+            ctx.violation('percell-vs-fixed:neighbourhood:' + site, 'cell %d: neighbourhoods %s vs %s' % (it, f[0], c[0]), {'case': sx_str(sxc), 'target': it}); found = True; continue
+        cond = c01.cond_number(mat_d(f[3])) if f[3] else 1.0
+        if cond > 1e7: ctx.cov['tie_excluded'] += 1; continue
+        a = {'est': vec_d(f[1]), 'std': vec_d(f[2])}; b = {'est': vec_d(c[1]), 'std': vec_d(c[2])}
+        vs = max([abs(float(x)) for x in a['std'] if x is not None] + [1e-3]) ** 2 + 1
+        d = diff_outputs(a, b, nvar, TOL * max(1., cond), zs, vs, what=('est', 'std'))
+        if d: ctx.violation('percell-vs-fixed:' + site, 'cell %d: fixed discretisation on a one-cell grid of the same extension vs per-cell extension: %s' % (it, d), {'case': sx_str(sxc), 'target': it}); found = True
+    return found
+
+# ============================================================================================== pair 12: kriging with / without the pre-projection
+def gen_optimoff(ctx, k):
+    rng = ctx.rng
+    py = gen_krig_base(ctx)
+    n = py['dbin']['n']
+    neigh = [0] if rng.random() < .6 else [1, 1, rng.choice([4, 6, n]), dy(None)]
+    py.update({'mode': 12, 'neigh': neigh})
+    sxc = [12, py['ndim'], py['nvar'], db_sx(py['dbin']), db_sx(py['dbout']), model_sx(py['model']), neigh]
+    ctx.dist('p12:' + krig_site(py) + ('+moving' if neigh[0] else '+unique'))
+    return py, sxc
+
+def compare_optimoff(ctx, py, sxc, res, mcases):
+    drifts = res[0]
+    okA, A = parse_k(res[1]); okB, B = parse_k(res[2], c01dump=True)
+    site = krig_site(py) + ('+moving' if py['neigh'][0] else '+unique')
+    if not okA or not okB:
+        if okA != okB: ctx.violation('optim-vs-plain-kriging:setup:' + site, 'isReady: optimised %s, plain %s' % (okA, okB), {'case': sx_str(sxc)}); return True
+        return False
+    found = False; zs = zscale_of(py); nvar = py['nvar']
+    for a, b in zip(A, B):
+        ctx.count('p12:%s:%d' % (sx_str(sxc)[:1200], a['it']), bool(a['nbgh']))
+        if a['nbgh'] != b['nbgh']:
+            ctx.violation('optim-vs-plain-kriging:neighbourhood:' + site, 'target %d: %s vs %s' % (a['it'], a['nbgh'], b['nbgh']), {'case': sx_str(sxc), 'target': a['it']}); found = True; continue
+        cond = cond_of(b)
+        if cond > 1e7: ctx.cov['tie_excluded'] += 1; continue
+        tol = TOL * max(1., cond)
+        vs = max([abs(float(undy(b['var0'][v][v]))) for v in range(nvar)] + [1e-30])
+        d = diff_outputs(a, b, nvar, tol, zs, vs)
+        if not d and a['wgt'] and b['wgt']:
+            WA, WB = mat_d(a['wgt']), mat_d(b['wgt'])
+            for i in range(len(WA)):
+                for v in range(nvar):
+                    if abs(float(WA[i][v]) - float(WB[i][v])) > tol * (1 + abs(float(WB[i][v]))): d = 'weight[%d][var %d]: %.12g vs %.12g' % (i, v, float(WA[i][v]), float(WB[i][v]))
+        if d: ctx.violation('optim-vs-plain-kriging:' + site, 'target %d: kriging with pre-projected points vs setOptimEnabled(false): %s' % (a['it'], d), {'case': sx_str(sxc), 'target': a['it']}); found = True
+    mcases += model_cases_for(py, drifts, B)
+    return found
+
+# ============================================================================================== pair 13: active-rank lists
+def gen_ranks(ctx, k):
+    rng = ctx.rng
+    ndim = rng.choice([1, 2, 3]); nvar = rng.choice([1, 2, 3]); n = rng.randint(1, 8)
+    r = rng.random()
+    db = gen_db(rng, ndim, nvar if r > .15 else 0, n, 0, p_na=rng.choice([0., .3]), p_coord_na=rng.choice([0., .3]), with_verr=rng.random() < .5, with_sel=rng.random() < .6)
+    if r <= .15: db['z'] = []; db['verr'] = []
+    if db['verr']: db['verr'] = [[rng.choice([0, F(1, 4), 1, None, F(-1, 2)]) for _ in range(n)] for _ in range(nvar)]
+    if db['sel'] and rng.random() < .25: db['sel'] = [False] * n          # everything masked: the lists must be EMPTY, not "all samples"
+    ivar0 = rng.choice([-1, -1] + list(range(nvar)))
+    nbgh = [] if rng.random() < .5 else ([i for i in range(n) if rng.random() < .7] or [0])
+    if nbgh and rng.random() < .4: rng.shuffle(nbgh)
+    py = {'mode': 13, 'ndim': ndim, 'nvar': nvar, 'db1': db, 'ivar0': ivar0, 'nbgh1': nbgh}
+    sxc = [13, ndim, nvar, db_sx(db), ivar0, nbgh]
+    ctx.dist('p13:' + ('all-masked' if db['sel'] and not any(db['sel']) else 'general'))
+    return py, sxc
+
+def compare_ranks(ctx, py, sxc, res, mo):
+    found = False
+    for combo, ((multi, single), model) in enumerate(zip(res, mo)):
+        flags = 'useSel=%d,useVerr=%d,useCoord=%d' % (combo & 1, (combo >> 1) & 1, (combo >> 2) & 1)
+        ctx.count('p13:%d:%s' % (combo, sx_str(sxc)[:1000]), True)
+        if multi != single:
+            ctx.violation('ranks:multiple-vs-single', 'getMultipleRanksActive(%s) = %s but variable by variable getRanksActive = %s' % (flags, multi, single), {'case': sx_str(sxc), 'combo': combo}); found = True
+        elif multi != model:
+            ctx.violation('ranks:vs-definition', 'getMultipleRanksActive(%s) = %s, the definition (filter of the candidate ranks) gives %s' % (flags, multi, model), {'case': sx_str(sxc), 'combo': combo}); found = True
+    return found
+
 # ============================================================================================== driver
 def pair_site(py):
     m = py['mode']
     if m == 1: return 'covmat:' + covmat_key(py)
     if m == 4: return 'ball:' + ('migrate' if py['sub'] == 0 else 'neigh')
-    return {2: 'unique-vs-moving', 3: 'xvalid-unique', 5: 'block1-vs-point', 6: 'colcok', 7: 'KrigingCalcul'}[m] + ':' + krig_site(py)
+    if m == 10: return 'driftmat'
+    if m == 13: return 'ranks'
+    if m == 14: return 'covmat-sparse'
+    return {2: 'unique-vs-moving', 3: 'xvalid-unique', 5: 'block1-vs-point', 6: 'colcok', 7: 'KrigingCalcul', 8: 'KrigingCalcul-sequence', 9: 'KrigingCalcul-options',
+            11: 'percell-vs-fixed', 12: 'optim-vs-plain-kriging'}[m] + ':' + krig_site(py)
 
 def run_pair(ctx, exe, name, cases, compare, crash_found):
     """cases: list of (py, sx); compare(py, sx, result) -> found; a crash loses the rest of the file: rerun the remainder once"""
     found = False
     if cases: ctx.sample({'pair': name, 'site': pair_site(cases[-1][0]), 'case': sx_str(cases[-1][1])[:500]}, 9)
     start = 0
-    for attempt in range(3):
+    for attempt in range(40 if name in ('p14', 'p9') else 3):
         cf = write_cases(ctx, '%s_%d' % (name, attempt), [c[1] for c in cases[start:]])
         rc, res = run_impl(ctx, exe, cf, timeout=1500)
         for k, r in enumerate(res):
@@ -680,7 +1133,17 @@ def run_pair(ctx, exe, name, cases, compare, crash_found):
             found |= bool(compare(py, sxc, r))
         if len(res) >= len(cases) - start: break
         py, sxc = cases[start + len(res)]
-        if py['mode'] == 6:
+        if py['mode'] == 9 and py.get('sub') == 2 and any(x is None for col in py['dbin']['z'] for x in col):
+            # known class: heterotopic data only (an abort of kribayes on isotopic data is a fresh 'crash:' violation below)
+            ctx.violation('kribayes:heterotopic-abort', 'kribayes (KrigingSystem, Bayesian drift) aborts (rc %s) with heterotopic data: the right-hand side is compressed after '
+                          'switching back to the model that holds the drift equations' % rc, {'case': sx_str(sxc)})
+        elif py['mode'] == 14 and py['ivar0'] == py['jvar0'] and py['nbgh1'] == py['nbgh2']:
+            ctx.violation('covmat-sparse:variable-rank-beyond-zero', 'evalCovMatrixSparse(ivar0 = jvar0 = %d) aborts (rc %s): the C(0) table used by the threshold is dimensioned by the NUMBER of '
+                          'variables requested but addressed by their RANK (mat0.setValue(ivar1, jvar2, ...))' % (py['ivar0'], rc), {'case': sx_str(sxc)})
+        elif py['mode'] == 14:
+            ctx.violation('covmat-sparse:verr-on-nonsquare-layout', 'evalCovMatrixSparse(db, db) with different variables / sub-lists for rows and columns aborts (rc %s): '
+                          '_updateCovMatrixSymmetricVerr writes (irow, irow) beyond the number of columns' % rc, {'case': sx_str(sxc)})
+        elif py['mode'] == 6:
             # regression key of the repaired defect: KrigingSystem::_lhsCalcul / _rhsCalculPoint addressed the pre-projected points by
             # the neighbourhood rank, which is -1 for the collocated target (ACov::load read _p1As[-1])
             ctx.violation('colcok:segfault-rank-minus-one', 'collocated cokriging through KrigingSystem crashes (rc %s); the collocated target enters the neighbourhood as rank -1, '
@@ -719,7 +1182,7 @@ def run(ctx):
         done = [(py, sxc, impl_res[id(sxc)]) for py, sxc in cases if id(sxc) in impl_res]
         models = [None] * len(done)
         if runner is not None:
-            mf = write_cases(ctx, 'model', [[sxc[1], sxc[2], sxc[3], sxc[4], r[6], sxc[6], sxc[7], sxc[8], sxc[9]] for py, sxc, r in done])
+            mf = write_cases(ctx, 'model', [[sxc[1], sxc[2], sxc[3], sxc[4], r[8], sxc[6], sxc[7], sxc[8], sxc[9]] for py, sxc, r in done])
             rcm, models = run_model(ctx, runner, mf)
             if len(models) != len(done):
                 print('ERROR: C04 model runner returned %d results for %d cases' % (len(models), len(done))); sys.exit(3)
@@ -762,6 +1225,51 @@ def run(ctx):
         cases = corpus_cases(7) + cases
         found_input |= run_pair(ctx, exe, 'p7', cases, lambda py, sxc, r: compare_calcul(ctx, py, sxc, r, mcases), None)
         ctx.log('pair 7 (KrigingCalcul vs KrigingSystem): %d cases' % len(cases))
+    if on(8):
+        cases = [gen_kcseq(ctx, k) for k in range(int(120 * mult))]
+        cases = corpus_cases(8) + cases
+        found_input |= run_pair(ctx, exe, 'p8', cases, lambda py, sxc, r: compare_kcseq(ctx, py, sxc, r), None)
+        ctx.log('pair 8 (KrigingCalcul sequences on one object vs fresh objects): %d cases' % len(cases))
+    if on(9):
+        cases = [gen_kcopt(ctx, k) for k in range(int(90 * mult))]
+        cases = corpus_cases(9) + cases
+        found_input |= run_pair(ctx, exe, 'p9', cases, lambda py, sxc, r: compare_kcopt(ctx, py, sxc, r), None)
+        ctx.log('pair 9 (KrigingCalcul xvalid / collocated / Bayes vs KrigingSystem): %d cases' % len(cases))
+    if on(14):
+        cases = [gen_sparse_ns(ctx, k) for k in range(int(60 * mult))]
+        cases = corpus_cases(14) + cases
+        found_input |= run_pair(ctx, exe, 'p14', cases, lambda py, sxc, r: compare_sparse_ns(ctx, py, sxc, r), None)
+        ctx.log('pair 14 (sparse covariance matrix on a non-symmetric same-Db layout): %d cases' % len(cases))
+    if on(11):
+        cases = [gen_percell(ctx, k) for k in range(int(60 * mult))]
+        cases = corpus_cases(11) + cases
+        found_input |= run_pair(ctx, exe, 'p11', cases, lambda py, sxc, r: compare_percell(ctx, py, sxc, r), None)
+        ctx.log('pair 11 (per-cell block discretisation vs fixed): %d cases' % len(cases))
+    if on(12):
+        cases = [gen_optimoff(ctx, k) for k in range(int(80 * mult))]
+        cases = corpus_cases(12) + cases
+        found_input |= run_pair(ctx, exe, 'p12', cases, lambda py, sxc, r: compare_optimoff(ctx, py, sxc, r, mcases), None)
+        ctx.log('pair 12 (kriging with vs without pre-projected points): %d cases' % len(cases))
+    for mode, gen, cmp_, nb, label in ((10, gen_driftmat, compare_driftmat, 120, 'pair 10 (drift matrix vs drift values)'),
+                                       (13, gen_ranks, compare_ranks, 250, 'pair 13 (active-rank lists vs definition)')):
+        if not on(mode): continue
+        cases = corpus_cases(mode) + [gen(ctx, k) for k in range(int(nb * mult))]
+        impl_res = {}
+        found_input |= run_pair(ctx, exe, 'p%d' % mode, cases, lambda py, sxc, r: impl_res.__setitem__(id(sxc), r), None)
+        runner = None if nocoq else build_runner(ctx)
+        if runner is None: continue
+        done = [(py, sxc, impl_res[id(sxc)]) for py, sxc in cases if id(sxc) in impl_res]
+        if mode == 10: mcs = [[sxc[1], sxc[2], sxc[3], [], [], sxc[5], -1, sxc[6], []] for py, sxc, r in done]
+        else: mcs = [[13, sxc[2], sxc[3], sxc[4], sxc[5]] for py, sxc, r in done]
+        mf = write_cases(ctx, 'model%d' % mode, mcs)
+        rcm, models = run_model(ctx, runner, mf)
+        if len(models) != len(done):
+            print('ERROR: C04 model runner returned %d results for %d cases (mode %d)' % (len(models), len(done), mode)); sys.exit(3)
+        for (py, sxc, r), mo in zip(done, models):
+            if mo and mo[0] == -999:
+                print('ERROR: C04 model rejected a case: %s' % sx_str(sxc)[:300]); sys.exit(3)
+            found_input |= cmp_(ctx, py, sxc, r, mo)
+        ctx.log('%s: %d cases' % (label, len(cases)))
     # ---------------- the exact kriging model of C01 on the reference runs of the kriging pairs
     if runner01 is not None and mcases:
         mf = write_cases(ctx, 'model01', [m[0] for m in mcases])
@@ -800,11 +1308,22 @@ def run(ctx):
         'pair 6: targets do not coincide with a datum (the option is then ignored by design); compared in unique and in wide moving neighbourhoods',
         'pair 7: covariance / drift matrices built with the Model API on data without undefined coordinates or external drifts (same equation set as KrigingSystem); fresh objects only '
         '(cache invalidation belongs to C10)',
+        'pair 8: the reference of a sequence is a fresh KrigingCalcul on which the same setters are replayed without intermediate getter (values must be identical up to 1e-9)',
+        'pair 9: setXvalidUnique cross-validates ALL the variables of an isotopic sample, compared with KrigingSystem on the data without the sample; setColCokUnique against the '
+        'collocated option of KrigingSystem (= augmented data, pair 6); setBayes and kribayes both against Bayesian kriging evaluated exactly (Fractions) on the matrices given to KrigingCalcul',
+        'pairs 1/14: evalCovMatrixSparse compared with threshold 0 and with the default threshold (cells within 1e-9 of the threshold skipped); same Db with different row/column '
+        'equations, or a single variable of rank >= 1, are separate regimes (pair 14)',
+        'pair 11: per-cell extensions (BLEX) against one fixed-discretisation run per cell on a one-cell grid of the same extension (same seed of the randomised second discretisation)',
+        'pair 12: CovAniso::setOptimEnabled(false) on every structure is the plain path of KrigingSystem (KrigingSystem::_optimEnabled is declared but never read: there is no other switch)',
+        'pair 13: the reference lists are the Coq model multiple_ranks_c (filter of the candidate ranks); includes all-masked data bases and undefined coordinates',
         'round-off tolerance 1e-9 x condition number of the kriging matrix (inf-norm), as in C01']
-    ctx.notes = ['not covered: Bayesian, collocated and cross-validation patches of KrigingCalcul (setBayes / setColCokUnique / setXvalidUnique); neighbourhood memo reuse (_checkUnchanged); '
+    ctx.notes = ['not covered: krigingFactors (no alternative path found), PrecisionOp*::evalDerivOptim / gradYQXOptim and TurboOptimizer (SPDE: C15), GeometryHelper::isInSphericalTriangleOptimized; neighbourhood memo reuse (_checkUnchanged); '
                  'image neighbourhood; non-stationary models (the optimised path is disabled for them); undefined coordinates (C05)',
                  'fixed defects kept as regression cases in corpus/C04.sx: colcok:segfault-rank-minus-one, xvalid-unique:undefined-external-drift, migrate:ball:dmax-tested-after-nearest, '
-                 'migrate:ball:masked-source, KrigingCalcul:getLambda-null-in-primal, KrigingCalcul:primal-SK-mean-not-added']
+                 'migrate:ball:masked-source, KrigingCalcul:getLambda-null-in-primal, KrigingCalcul:primal-SK-mean-not-added, covmat-sparse:variable-rank-beyond-zero, '
+                 'covmat-sparse:verr-on-nonsquare-layout, KrigingCalcul:colcok-variance:SK',
+                 'known findings (fixes/C04_8.patch not applied because it changes the reference output of test_Schur_cmp): kribayes:several-drift-equations, kribayes:selection, '
+                 'kribayes:heterotopic-abort; only inputs of exactly those classes map to these keys']
     if not proofs_ok: proof_break_violation(ctx, found_input)
 
 if __name__ == '__main__':
